@@ -36,6 +36,7 @@ func zzH_CLI() {
 		}
 	})
 	failWith := make([]string, K)
+	emptyReply := make([]bool, K)
 	inOrder := true
 	vGo("env", func() {
 		// collect the K requests, then answer them in a chosen order
@@ -64,6 +65,10 @@ func zzH_CLI() {
 			if vChoose("fail", 2) == 1 {
 				failWith[i] = "E" + string(rune('0'+i))
 				m.deliver(zzResponse(got[i].seq, failWith[i], nil))
+			} else if vParam("cli.empty", 1) == 1 && vChoose("emptyreply", 2) == 1 {
+				// a handler whose reply encodes to zero bytes (e.g. an all-default pb message)
+				emptyReply[i] = true
+				m.deliver(zzResponse(got[i].seq, "", nil))
 			} else {
 				m.deliver(zzResponse(got[i].seq, "", zzReplyFor(got[i].args)))
 			}
@@ -81,7 +86,11 @@ func zzH_CLI() {
 				vAssert(len(replies[i]) == 0, "reply-untouched-on-error")
 			} else {
 				vAssertOn(c.Error == nil, "no-error", c)
-				vAssert(vEqBytes(replies[i], zzReplyFor(args[i])), "reply-of-own-args")
+				if emptyReply[i] {
+					vAssert(len(replies[i]) == 0, "reply-of-own-args")
+				} else {
+					vAssert(vEqBytes(replies[i], zzReplyFor(args[i])), "reply-of-own-args")
+				}
 			}
 		}
 		if mode == 2 && inOrder {
